@@ -372,18 +372,22 @@ def argmax : List α → Nat
   | [] => 0
   | x :: xs => argmaxGo xs 1 0 x
 
-/-- `_plane_to_convex_hull_points`; returns `(dist, closest_point_plane, closest_point)` in the
-non-straddling branch (br 10) and **whatever `_line_segment_to_plane` returns**
-(`(dist, closest_point_segment, closest_point_plane)`, br 0–3) in the straddling branch — the
-code forwards that tuple unchanged.  Empty `points` → `indexOOB` (`np.argmin` of an empty array raises). -/
-def planeToHull (pp n : V3 α) (points : List (V3 α)) : Except Err (Res3 α) := do
+/-- `_plane_to_convex_hull_points`, generic in how the straddling branch hands on the tuple of
+`_line_segment_to_plane` (`(dist, closest_point_segment, closest_point_plane)`, br 0–3):
+`swap = true`  — the code as it is since /repo 4c5c535:
+  `dist, closest_point, closest_point_plane = _line_segment_to_plane(...); return dist, closest_point_plane, closest_point`;
+`swap = false` — the code before that repair, which forwarded the tuple unchanged.
+The non-straddling branch (br 10) returns `(dist, closest_point_plane, closest_point)`.
+Empty `points` → `indexOOB` (`np.argmin` of an empty array raises). -/
+def planeToHullG (swap : Bool) (pp n : V3 α) (points : List (V3 α)) : Except Err (Res3 α) := do
   let ts := points.map fun p => V3.dot (p - pp) n
   let mi := argmin ts
   let ma := argmax ts
   match ts[mi]?, ts[ma]?, points[mi]?, points[ma]? with
   | some tmin, some tmax, some pmin, some pmax =>
-    if tmin * tmax < 0 then
-      segToPlaneK pmin pmax pp n 1e-6
+    if tmin * tmax < 0 then do
+      let r ← segToPlaneK pmin pmax pp n 1e-6
+      pure (if swap then ⟨r.d, r.p2, r.p1, r.br⟩ else r)
     else
       let ci := argmin (ts.map absS)
       match ts[ci]?, points[ci]? with
@@ -392,6 +396,18 @@ def planeToHull (pp n : V3 α) (points : List (V3 α)) : Except Err (Res3 α) :=
         pure ⟨absS t, cpp, cp, 10⟩
       | _, _ => .error .indexOOB
   | _, _, _, _ => .error .indexOOB
+
+/-- `_plane_to_convex_hull_points` (current code): `p1` = closest point on the plane, `p2` = closest point of the hull -/
+def planeToHull (pp n : V3 α) (points : List (V3 α)) : Except Err (Res3 α) := planeToHullG true pp n points
+
+/-- `_plane_to_convex_hull_points` as it was before /repo 4c5c535 (kept for the counterexample theorem of the
+repaired finding F-c10-plane-hull-swapped) -/
+def planeToHull_asIs_before_fix (pp n : V3 α) (points : List (V3 α)) : Except Err (Res3 α) :=
+  planeToHullG false pp n points
+
+/-- `plane_to_triangle` before /repo 4c5c535 -/
+def planeToTriangle_asIs_before_fix (pp n A B C : V3 α) : Except Err (Res3 α) :=
+  planeToHull_asIs_before_fix pp n [A, B, C]
 
 /-- `plane_to_triangle` -/
 def planeToTriangle (pp n A B C : V3 α) : Except Err (Res3 α) := planeToHull pp n [A, B, C]
